@@ -233,7 +233,8 @@ inductive Ord3 where | lt | eq | gt
     (`i32 as f64` is exact). Only used by the legacy comparison. -/
 def toF64 (n : Int) : Int :=
   if n < 9007199254740992 then n else
-  let k := Nat.log2 n.toNat - 52
+  -- number of low bits that do not fit the 53-bit significand (1..11 for n < 2^64)
+  let k := ((List.range 12).find? (fun k => decide (n < 9007199254740992 * ((2 ^ k : Nat) : Int)))).getD 11
   let m : Int := ((2 ^ k : Nat) : Int)
   let q := n / m
   let r := n % m
@@ -329,6 +330,19 @@ def PredList.weight : PredList → Nat
   | .nil => 0
   | .cons p ps => p.weight + ps.weight
 end
+
+/-- the `k`-th arrangement of a list (Lehmer-style: repeatedly pick element `k % length`, continue with `k / length`);
+    `k = 0` is the identity. The drivers enumerate `k` to cover hash-iteration orders; `nthPerm_perm` shows every member of the
+    family is a permutation. -/
+def nthPerm : Nat → Nat → List Pred → List Pred
+  | 0, _, l => l
+  | f+1, k, l =>
+    match l[k % l.length]? with
+    | none => l
+    | some x => x :: nthPerm f (k / l.length) (l.erase x)
+
+/-- iteration order number `k` -/
+def ordK (k : Nat) (ps : List Pred) : List Pred := nthPerm ps.length k ps
 
 /-- the code after the `fix:` commits: repaired `(And, And)` arm, exact constant comparison -/
 def Cfg.current (ord : List Pred → List Pred) : Cfg := { aa := .fixed, f64 := false, ord := ord }
